@@ -118,6 +118,8 @@ def run(ctx, b, broken):
                 ("visit", " ".join(map(str, [14] + hreq + e)), impl_visit(node, hs, c_ast)),
                 ("visit (derived visitor class after its base class was used)", " ".join(map(str, [14] + hreq + e)), impl_visit(node, hs, c_ast, 1)),
                 ("visit (same instance, second traversal)", " ".join(map(str, [14] + hreq + e)), impl_visit(node, hs, c_ast, 2)),
+                ("visit (visitor class with methods named visit_Node / visit_object)", " ".join(map(str, [14] + hreq + e)), impl_visit(node, hs, c_ast, 4)),
+                ("visit (visit_X methods remove the visited node from its list)", " ".join(map(str, [14] + hreq + e)), impl_visit(to_py(v, c_ast), hs, c_ast, 3)),
             ]
             for what, req, io_ in pairs:
                 mo = model.raw(req)
